@@ -32,6 +32,18 @@ checks = {
    text="every string up to the length bound over a 24-character alphabet, every token sequence up to the bound over a 48-token alphabet (identifiers bound to all value types incl. aliased and nested values), a nesting-depth ladder and numeric boundary operands, each evaluated on the real engine on a default-stack thread; returns value or error, no panic, no abort, no hang, store unlocked and unpoisoned afterwards",
    note="hang detection by wall-clock watchdog; process isolation detects aborts; one known finding (stack overflow at nesting depth 4096 of array literals)",
    tech="bounded-exhaustive enumeration of inputs (all strings / token sequences up to a length) on the real engine with a totality oracle"),
+ "C04": dict(engine="e3", cat="model_checking",
+   text="corpus enumerated per dimension (all kinded state trees up to the bound with all candidate transitions, every content leaf in every host, every if/elseif/else/foreach nesting structure up to the depth bound, attribute combinations of send/invoke/data/donedata/cancel/descriptors, texts needing escapes); each document parsed by the real reader and its canonical model dump compared with the model expected from the tree, then re-rendered in 10 lexical styles plus an XInclude split whose models must be identical",
+   note="expected-model builder harness/src/expect.rs is the oracle for what a document means; quick-xml trusted",
+   tech="bounded-exhaustive enumeration of document trees x lexical renderings on the real reader against an expected-model builder and metamorphic rendering equality"),
+ "C05": dict(engine="e3", cat="model_checking",
+   text="primitive layer exhaustively at and below every width boundary (all u64 below 2^16/2^20 and around every power of two, every string byte length 0..4200 x character classes, multi-byte characters at every offset around the length-prefix boundaries, nested data values), canonical dump equality after write/read for every corpus document, and the reloaded machine of every small statechart explored to closure against the reference interpreter",
+   note="behavioural equality is established transitively through the reference interpreter (C02 covers the original machine on the same families)",
+   tech="bounded-exhaustive enumeration of values and models through the real writer/reader, plus explicit-state exploration of the reloaded machine against the reference model"),
+ "C18": dict(engine="e3", cat="fault_enumeration",
+   text="every proper prefix of every corpus image fed to the real reader (must be Err, never Ok, never panic), and every write call of the serializer failed / shortened / refused in turn plus a failing flush (writer must report or the sink must hold the complete image)",
+   note="prefix cuts only (no bit flips); in-memory sink with injected faults",
+   tech="exhaustive enumeration of crash points (all prefixes) and fault positions (all write calls x fault modes) on the real reader/writer"),
 }
 na_reason = {}
 m = {
@@ -47,7 +59,9 @@ m = {
    {"name": "e1", "path": "harness/src/bin/e1.rs", "serves_properties": [p for p in checks if checks[p]['engine']=='e1'],
     "kind_free_text": "explicit-state search over real rFSM sessions (one session, harness-paced at the idle point), reference SCXML interpreter as oracle"},
    {"name": "e2", "path": "harness/src/bin/e2.rs", "serves_properties": [p for p in checks if checks[p]['engine']=='e2'],
-    "kind_free_text": "bounded-exhaustive enumeration of characters / tokens / expression trees against the real expression engine, process-isolated workers with crash and hang recovery"}],
+    "kind_free_text": "bounded-exhaustive enumeration of characters / tokens / expression trees against the real expression engine, process-isolated workers with crash and hang recovery"},
+   {"name": "e3", "path": "harness/src/bin/e3.rs", "serves_properties": [p for p in checks if checks[p]['engine']=='e3'],
+    "kind_free_text": "bounded-exhaustive enumeration of document trees, lexical renderings, primitive values, image prefixes and write-fault positions against the real reader / serializer"}],
  "checks": [], "not_applicable": [], "notes": "see DESIGN.md; known findings in known_findings.json"}
 for p in props:
     if p in checks:
